@@ -141,6 +141,23 @@ func c07Run(w *simrt.World, tier string) {
 				viol("C07:lookup:not-authenticated", "%s: lookup(%d) returns %s which is not authenticated\n%s", when, id, lc.GetConnID(), strings.Join(hist, "\n"))
 				return false
 			}
+			if lc.GetClientID() != id && !settled {
+				// concurrent observation: the lookup and this read are two steps, and a re-handshake on that
+				// connection may have landed in between (at the instant the lookup returned the answer was
+				// right). Only a stale index entry is a violation: it persists when the lookup is repeated.
+				persistent := true
+				for try := 0; try < 3 && persistent; try++ {
+					w.Yield("c07.recheck")
+					again := node.SM.GetControlConnectionByClientID(id)
+					if again == nil || again.GetConnID() != lc.GetConnID() || again.ClientID == id {
+						persistent = false
+					}
+				}
+				if !persistent {
+					w.Probe("transient-identity-change-between-lookup-and-read")
+					continue
+				}
+			}
 			if lc.GetClientID() != id {
 				viol("C07:lookup:belongs-to-other-client:"+c07why(cc, id), "%s: lookup(%d) returns connection %s whose client id is %d\n%s", when, id, lc.GetConnID(), lc.GetClientID(), strings.Join(hist, "\n"))
 				return false
